@@ -156,6 +156,7 @@ Proof.
   intros H c Hc.
   destruct (stsc_facts tb H) as [e0 [H0 [Hc0 [Hs0 [Hok [Hsum [HN [HC [Hlen Hel]]]]]]]]].
   destruct (consistent_parts tb H) as [_ [_ [_ [Hsc _]]]]. unfold stsc_ok in Hsc.
+  apply andb_prop in Hsc. destruct Hsc as [Hsc _]. apply andb_prop in Hsc. destruct Hsc as [Hsc _].
   apply andb_prop in Hsc. destruct Hsc as [_ Hids].
   destruct (find_entry_for_chunk_ok (sc_entries (t_stsc tb)) (nchunks tb) c e0 Hok Hel H0 ltac:(lia))
     as [i [e [Hf [He [Hk Hnx]]]]].
@@ -168,7 +169,7 @@ Proof.
   unfold S_sample_description_id, stsc_get_sample_description_id.
   destruct (c =? 0) eqn:E0; [lia|]. rewrite Hx.
   destruct (sc_single (t_stsc tb) =? 0) eqn:Es; cbn [negb].
-  - assert (Hl : lenN (sc_ids (t_stsc tb)) = lenN (sc_entries (t_stsc tb))) by (cbn [negb orb] in Hids; lia).
+  - assert (Hl : lenN (sc_ids (t_stsc tb)) = lenN (sc_entries (t_stsc tb))) by lia.
     destruct (nthN_lt_Some (sc_ids (t_stsc tb)) i) as [x Hxi]; [lia|].
     cbn [N.add]. rewrite Hxi. exists x. split; [reflexivity|].
     rewrite u32_small by lia. rewrite Hf. cbn [rbind]. apply idx_Some, Hxi.
